@@ -40,6 +40,8 @@ type Node struct {
 	In    []string `json:"in"`
 	Out   []string `json:"out"`
 	Attrs []Attr   `json:"attrs,omitempty"`
+	// Domain is the operator-set domain of the node ("" = ai.onnx)
+	Domain string `json:"domain,omitempty"`
 }
 
 // Init is an initializer (or a tensor-valued attribute): a value and how it is encoded.
@@ -135,6 +137,10 @@ func RawBytes(v *val.V) []byte {
 func valueInfo(io IO) *onnx.ValueInfoProto {
 	vi := &onnx.ValueInfoProto{Name: io.Name}
 	if io.NoShape {
+		if io.DT > 0 {
+			// element type declared, shape absent
+			vi.Type = &onnx.TypeProto{Value: &onnx.TypeProto_TensorType{TensorType: &onnx.TypeProto_Tensor{ElemType: int32(io.DT)}}}
+		}
 		return vi
 	}
 	sh := &onnx.TensorShapeProto{}
@@ -192,7 +198,7 @@ func attrProto(a Attr) *onnx.AttributeProto {
 func (m *Model) Proto() *onnx.ModelProto {
 	g := &onnx.GraphProto{Name: "g"}
 	for i, n := range m.Nodes {
-		np := &onnx.NodeProto{OpType: n.Op, Name: fmt.Sprintf("n%d", i)}
+		np := &onnx.NodeProto{OpType: n.Op, Name: fmt.Sprintf("n%d", i), Domain: n.Domain}
 		np.Input = append([]string{}, n.In...)
 		np.Output = append([]string{}, n.Out...)
 		for _, a := range n.Attrs {
